@@ -30,8 +30,9 @@
 (*   Big   a few large masks (to cross the chunking limit); Emit.          *)
 (*   Chunk get_searchlight_RDMs as a loop over Chunks(n) writing per-centre*)
 (*         results into the output array; ChunkedIsDirect.                 *)
-(*   Sch   evaluate_models_searchlight: Dispatch / Complete(w) / Collect   *)
-(*         in every interleaving; ResultOrder.                             *)
+(*   Sch   get_searchlight_RDMs -> Select (the object, a re-ordering or a  *)
+(*         subset of it) -> evaluate_models_searchlight: Dispatch /        *)
+(*         Complete(w) / Collect in every interleaving; ResultOrder.       *)
 (***************************************************************************)
 EXTENDS Integers, Sequences, FiniteSets, TLC, SequencesExt, FiniteSetsExt, Functions, Json
 
@@ -45,7 +46,7 @@ CONSTANTS Shapes,       \* Vol: set of shapes <<nx,ny,nz>> whose masks are ALL e
           ChunkNs,      \* Chunk: numbers of centres to run the chunk loop for
           Workers,      \* Sch: number of workers
           Tasks,        \* Sch: number of tasks (= searchlight centres)
-          CollectBy,    \* "index" (joblib's contract) | "completion" (negative control)
+          CollectBy,    \* "index" (joblib's contract) | "completion" | "origindex" (negative controls)
           EmitMod       \* Vol: emit one terminal state in EmitMod
 
 VARIABLES geo,          \* state of the geometric / chunking sub-models (a record)
@@ -274,19 +275,37 @@ EmitBig == (geo.kind = "big" /\ Done) =>
 \* Tasks are submitted in centre order; a free worker takes the next one; workers complete in any
 \* order; the caller collects.  Result of task i is the token Res(i).
 W == 1..Workers
+\* Multi-step shape: get_searchlight_RDMs produces one RDM per centre (original positions 1..Tasks, kept by every
+\* RDMs object in its 'index' descriptor); the caller may pass evaluate_models_searchlight that object or a
+\* SELECTION / RE-ORDERING of it (subset('voxel_index', roi), sl[[..]], sl[perm]).  obj = the object passed in,
+\* as the sequence of original positions of its elements.  Task p evaluates the p-th element OF THE OBJECT PASSED.
+IdSel == [i \in 1..Tasks |-> i]
+Selections == {IdSel,                                                   \* the fresh object
+               [i \in 1..Tasks |-> Tasks + 1 - i],                       \* reversed
+               [i \in 1..Tasks |-> (i % Tasks) + 1],                     \* rotated
+               SelectSeq(IdSel, LAMBDA i : i % 2 = 0 \/ Tasks = 1)}      \* a region of interest (proper subset)
+NT == Len(sch.obj)
 SchInit == /\ geo = Off
-           /\ sch = [next |-> 1, run |-> [w \in W |-> 0], fin |-> <<>>, out |-> <<>>]
-Dispatch(w) == /\ sch.run[w] = 0 /\ sch.next <= Tasks
+           /\ sch = [obj |-> <<>>, next |-> 1, run |-> [w \in W |-> 0], fin |-> <<>>, out |-> <<>>]
+Select == /\ sch.obj = <<>>
+          /\ \E sel \in Selections : sel # <<>> /\ sch' = [sch EXCEPT !.obj = sel]
+Dispatch(w) == /\ sch.obj # <<>> /\ sch.run[w] = 0 /\ sch.next <= NT
                /\ sch' = [sch EXCEPT !.run[w] = sch.next, !.next = sch.next + 1]
 Complete(w) == /\ sch.run[w] # 0
                /\ sch' = [sch EXCEPT !.run[w] = 0, !.fin = Append(sch.fin, sch.run[w])]
-Collect == /\ sch.next = Tasks + 1 /\ \A w \in W : sch.run[w] = 0 /\ sch.out = <<>> /\ Tasks > 0
-           /\ sch' = [sch EXCEPT !.out = IF CollectBy = "index" THEN [i \in 1..Tasks |-> Res(i)]
-                                          ELSE [k \in 1..Tasks |-> Res(sch.fin[k])]]
-SchNext == ((\E w \in W : Dispatch(w) \/ Complete(w)) \/ Collect) /\ UNCHANGED geo
+\* result of task p: "index" / "completion": the RDM of the p-th element of the object passed (original centre
+\* obj[p]); "origindex" (negative control, the fault of looking elements up by their 'index' descriptor): the
+\* element whose ORIGINAL position is p, an error (0) if the object has none
+Collect == /\ sch.obj # <<>> /\ sch.next = NT + 1 /\ \A w \in W : sch.run[w] = 0 /\ sch.out = <<>>
+           /\ sch' = [sch EXCEPT !.out =
+                 IF CollectBy = "index" THEN [p \in 1..NT |-> Res(sch.obj[p])]
+                 ELSE IF CollectBy = "completion" THEN [k \in 1..NT |-> Res(sch.obj[sch.fin[k]])]
+                 ELSE [p \in 1..NT |-> IF \E q \in 1..NT : sch.obj[q] = p THEN Res(p) ELSE 0]]
+SchNext == (Select \/ (\E w \in W : Dispatch(w) \/ Complete(w)) \/ Collect) /\ UNCHANGED geo
 SchSpec == SchInit /\ [][SchNext]_vars /\ WF_vars(SchNext)
-CentreOrder == [i \in 1..Tasks |-> Res(i)]
-ResultOrder == (sch # Off /\ sch.out # <<>>) => sch.out = CentreOrder      \* one result per centre, in centre order
+CentreOrder == [p \in 1..NT |-> Res(sch.obj[p])]
+\* one result per element of the object passed in, in ITS order, each the evaluation of that element's RDM
+ResultOrder == (sch # Off /\ sch.out # <<>>) => sch.out = CentreOrder
 SchSane == sch # Off => /\ Len(sch.fin) + Cardinality({w \in W : sch.run[w] # 0}) = sch.next - 1
                         /\ \A w1, w2 \in W : (w1 # w2 /\ sch.run[w1] # 0) => sch.run[w1] # sch.run[w2]
                         /\ Len(sch.fin) = Cardinality(ToSet(sch.fin))       \* every task completes at most once
